@@ -9,6 +9,7 @@ import (
 	"io"
 	"math/rand/v2"
 	"net/http"
+	"net/http/httptest"
 	"net/url"
 	"os"
 	"strings"
@@ -66,6 +67,27 @@ func (w *stubWitness) GetLatestCheckpoint(ctx context.Context, id string) ([]byt
 		return nil, os.ErrNotExist
 	}
 	return cp, nil
+}
+
+// ServeHTTP lets the same stub sit behind a real listener (httptest.Server): the request then crosses the real
+// net/http client transport, which - unlike a RoundTripper stub - honours Content-Length and GetBody.
+func (d *stubDist) ServeHTTP(w http.ResponseWriter, q *http.Request) {
+	resp, err := d.RoundTrip(q)
+	if err != nil {
+		if hj, ok := w.(http.Hijacker); ok {
+			if c, _, e := hj.Hijack(); e == nil {
+				c.Close() // connection reset / transport-level failure
+				return
+			}
+		}
+		w.WriteHeader(http.StatusBadGateway)
+		return
+	}
+	for k, v := range resp.Header {
+		w.Header()[k] = v
+	}
+	w.WriteHeader(resp.StatusCode)
+	_, _ = io.Copy(w, resp.Body)
 }
 
 type seenReq struct {
@@ -127,11 +149,11 @@ func (d *stubDist) RoundTrip(q *http.Request) (*http.Response, error) {
 		// a deadline that expired inside the transport for this one request; the cycle's context is alive
 		return nil, fmt.Errorf("awaiting response headers: %w", context.DeadlineExceeded)
 	case "302_to_200":
-		return mk(302, map[string]string{"Location": "/redirected/200/x"})
+		return mk(302, map[string]string{"Location": "/redirected/200/" + id})
 	case "307_to_404":
-		return mk(307, map[string]string{"Location": "/redirected/404/x"})
+		return mk(307, map[string]string{"Location": "/redirected/404/" + id})
 	case "307_to_200":
-		return mk(307, map[string]string{"Location": "/redirected/200/x"})
+		return mk(307, map[string]string{"Location": "/redirected/200/" + id})
 	}
 	return mk(200, nil)
 }
@@ -141,11 +163,13 @@ func main() {
 	wit.EnsureMetrics(nil)
 	run := ev.Start("C15", "exploration")
 	defer run.Finish()
-	run.Rule("unit = one DistributeOnce cycle of the real distributor over 1-6 logs against a stub witness (per log one of: valid, missing, wrong log key, no witness signature, invalid witness signature, corrupted, another log's checkpoint, valid with two witness keys, wrong origin, witness error, a witness error that wraps a context error while the cycle's context is alive) and a stub distributor (200, 400, 404, 500, connection reset, a transport-level deadline error, 302->GET 200, 307->404, 307->200); all witness x distributor answer pairs are enumerated for single logs, sets are PRNG-drawn. Every request reaching the stub is judged (method, path, body identical to the witness's answer, body verifies by kit/refnote); per-log failure accounting is compared with DistributeOnce's result; one to three rounds run on the same Distributor instance and the last one is judged. evaluations = (log, cycle) pairs; nontrivial = distinct (witness answer, distributor answer, set size)")
+	run.Rule("unit = one DistributeOnce cycle of the real distributor over 1-6 logs against a stub witness (per log one of: valid, missing, wrong log key, no witness signature, invalid witness signature, corrupted, another log's checkpoint, valid with two witness keys, wrong origin, witness error, a witness error that wraps a context error while the cycle's context is alive) and a stub distributor (200, 400, 404, 500, connection reset, a transport-level deadline error, 302->GET 200, 307->404, 307->200); all witness x distributor answer pairs are enumerated for single logs, sets are PRNG-drawn. Every request reaching the stub is judged (method, path, body identical to the witness's answer, body verifies by kit/refnote); per-log failure accounting is compared with DistributeOnce's result; one to three rounds run on the same Distributor instance, the witness's checkpoints changing (size and byte length) between rounds, and the last one is judged. evaluations = (log, cycle) pairs; nontrivial = distinct (witness answer, distributor answer, set size)")
 	run.Assume("307 -> 200 is executed but its success/failure is not judged (the statement leaves it open)")
 	run.Floor("pairs_single", int64(len(witnessAnswers)*len(distAnswers)))
 	run.Floor("pushed_valid", 200)
 	run.Floor("withheld_invalid", 500)
+	run.Floor("checkpoint_changed_between_rounds", 200)
+	run.Floor("cycles_over_a_real_listener", 200)
 	type pair struct{ w, d string }
 	var pairs []pair
 	for _, w := range witnessAnswers {
@@ -198,8 +222,12 @@ func cycle(run *ev.Run, unit int64, r *rand.Rand, ws, ds []string) {
 		sd.delay = time.Duration(r.IntN(4)) * time.Millisecond
 	}
 	var clogs []config.Log
+	digits := 1 // decimal length of the sizes drawn: later rounds publish checkpoints of another length
 	cosign := func(l *gen.Log, k *refnote.SignKey, origin string, wsig string) []byte {
 		size := 1 + r.Uint64N(9)
+		for d := 1; d < digits; d++ {
+			size = size*10 + r.Uint64N(10)
+		}
 		text := refnote.Body(origin, size, l.Root(0, size))
 		lines := []string{k.SigLine(text)}
 		switch wsig {
@@ -261,7 +289,15 @@ func cycle(run *ev.Run, unit int64, r *rand.Rand, ws, ds []string) {
 			sw.errs[cl.ID] = fmt.Errorf("reading checkpoint: %w", []error{context.DeadlineExceeded, context.Canceled}[r.IntN(2)])
 		}
 	}
-	d, err := rest.NewDistributor("http://distributor.invalid", &http.Client{Transport: sd}, clogs, witV, sw)
+	base, hc := "http://distributor.invalid", &http.Client{Transport: sd}
+	if unit%4 == 3 {
+		// a real listener and the real client transport
+		srv := httptest.NewServer(sd)
+		defer srv.Close()
+		base, hc = srv.URL, &http.Client{Timeout: 20 * time.Second}
+		run.Count("cycles_over_a_real_listener")
+	}
+	d, err := rest.NewDistributor(base, hc, clogs, witV, sw)
 	if err != nil {
 		run.Inconclusive(err.Error())
 		return
@@ -275,6 +311,21 @@ func cycle(run *ev.Run, unit int64, r *rand.Rand, ws, ds []string) {
 		sd.mu.Unlock()
 		sw.mu.Lock()
 		sw.asked = nil
+		// between rounds the logs grow: the witness now holds newer checkpoints, of another byte length
+		digits = 1 + r.IntN(4) // (explicit trees: keep the sizes below 10^4)
+		for i, l := range logs {
+			if r.IntN(2) == 0 {
+				continue
+			}
+			switch ws[i] {
+			case "valid":
+				sw.answers[clogs[i].ID] = cosign(l, l.Key, l.Origin, "v1")
+				run.Count("checkpoint_changed_between_rounds")
+			case "valid_two_keys":
+				sw.answers[clogs[i].ID] = cosign(l, l.Key, l.Origin, "two")
+				run.Count("checkpoint_changed_between_rounds")
+			}
+		}
 		sw.mu.Unlock()
 		derr = d.DistributeOnce(context.Background())
 	}
@@ -290,7 +341,7 @@ func cycle(run *ev.Run, unit int64, r *rand.Rand, ws, ds []string) {
 		wantPath := "/distributor/v0/logs/" + id + "/byWitness/" + url.PathEscape(wk.Name) + "/checkpoint"
 		var mine []seenReq
 		for _, q := range sd.seen {
-			if strings.Contains(q.Path, "/logs/"+id+"/") {
+			if strings.Contains(q.Path, "/logs/"+id+"/") || strings.HasSuffix(q.Path, "/"+id) {
 				mine = append(mine, q)
 			}
 		}
@@ -325,6 +376,12 @@ func cycle(run *ev.Run, unit int64, r *rand.Rand, ws, ds []string) {
 		}
 		if !bytes.Equal(q.Body, sw.answers[id]) {
 			run.Violate("body_modified", "the pushed body is not byte-identical to what the witness reported", unit, detail)
+		}
+		for _, rq := range mine[1:] {
+			// a PUT re-sent to a redirect target carries the same, current bytes
+			if rq.Method == http.MethodPut && !bytes.Equal(rq.Body, sw.answers[id]) {
+				run.Violate("body_modified;resent_after_redirect", "the PUT re-sent after a redirect does not carry what the witness reported in this round", unit, detail)
+			}
 		}
 		n, perr := refnote.Parse(q.Body)
 		okBody := perr == nil
